@@ -670,15 +670,18 @@ def c06_stream_clause(spec, acc):
         # notice, a marker): data is data - such a packet is cut out and delivered like any other
         if rep % 2 == 0:
             lits = [b for b in gen.harvested_byte_strings() if 3 <= len(b) <= 8]
+            # every byte literal (and prefix) in every such session; of the many text literals (names of lookup values mostly) a sample
+            first_ = [b for b in gen.harvested_byte_literals(3, 8)]
             single = [d for d in defs if d.type == "Single" and (d.length or 9) <= 8 and d.fixed_layout]
-            for lit in rng.sample(lits, min(len(lits), 6)):
+            others_ = [b for b in lits if b not in first_]
+            for lit in first_ + rng.sample(others_, min(len(others_), 4)):
                 for attempt in range(40):
                     d = rng.choice(single)
                     off = rng.randrange(0, d.length - len(lit) + 1) if d.length >= len(lit) else None
                     if off is None:
                         continue
                     pb_ = bytearray(dbx.pack(d, gen.base_raws(d, rng, dbx)).to_bytes(d.length, "little"))
-                    pb_[off:off + len(lit)] = lit if attempt % 2 == 0 else lit[::-1]
+                    pb_[off:off + len(lit)] = lit if (attempt < 30 or lit in others_) and attempt % 7 != 6 else lit[::-1]
                     if spec["client"] == "usb" and b"\xaa\x55" in bytes(pb_):
                         continue
                     if dbx.select(d.pgn, int.from_bytes(pb_, "little")) is not d:
